@@ -395,6 +395,41 @@ fn run(name: &str, j: &J) -> Result<bool, String> {
             println!("  {} over a table of size {}: declared {}; over zero rows SQL returns NULL", q, rel.inputs()[0].size(), dt);
             Ok(!(input_can_be_empty && !matches!(dt, DataType::Optional(_) | DataType::Any)))
         }
+        // C18: converting an integer range into a float type terminates quickly wherever the range lies (it used to enumerate the range)
+        "c18_values_len" => {
+            let (lo, hi) = (i(j, "lo"), i(j, "hi"));
+            let (tx, rx) = std::sync::mpsc::channel();
+            std::thread::spawn(move || { let r = DataType::integer_interval(lo, hi).into_data_type(&DataType::float()).map(|t| t.to_string()); let _ = tx.send(r.map_err(|e| e.to_string())); });
+            match rx.recv_timeout(std::time::Duration::from_secs(10)) {
+                Ok(r) => { println!("  int[{} {}] into float: {:?}", lo, hi, r.map(|t| t.chars().take(80).collect::<String>())); Ok(true) }
+                Err(_) => { println!("  int[{} {}] into float: not finished after 10 s", lo, hi); Ok(false) }
+            }
+        }
+        // C06: COUNT(DISTINCT) / SUM(DISTINCT) over a list of n equal values
+        "c06_distinct_range" => {
+            use qrlew::data_type::function::{self, Function as _};
+            let n = i(j, "n") as usize;
+            let dt = DataType::list(DataType::integer_interval(1, 2), n, n);
+            let v = Value::list((0..n).map(|_| Value::integer(1)));
+            let mut ok = true;
+            for (name, f) in [("count_distinct", Box::new(function::count_distinct()) as Box<dyn function::Function>), ("sum_distinct", Box::new(function::sum_distinct()))] {
+                let img = f.super_image(&dt).map_err(|e| e.to_string())?; let y = f.value(&v).map_err(|e| e.to_string())?;
+                println!("  {} over {}: {}; on {} equal values it is {}", name, dt, img, n, y);
+                if !img.contains(&y) { ok = false; }
+            }
+            Ok(ok)
+        }
+        // C06: EXTRACT(field FROM date) must lie in the propagated range
+        "c06_extract_range" => {
+            let d = chrono::NaiveDate::parse_from_str(j["date"].as_str().unwrap(), "%Y-%m-%d").map_err(|e| e.to_string())?;
+            let e = match j["field"].as_str().unwrap() { "week" => Expr::extract_week(Expr::col("d")), "year" => Expr::extract_year(Expr::col("d")), other => return Err(format!("field {}", other)) };
+            let dt = DataType::structured([("d", DataType::date())]);
+            let img = e.super_image(&dt).map_err(|e| e.to_string())?;
+            let expected = match j["field"].as_str().unwrap() { "week" => { use chrono::Datelike; d.iso_week().week() as i64 } _ => { use chrono::Datelike; d.year() as i64 } };
+            let y = e.value(&Value::structured([("d", Value::date(d))])).map_err(|e| e.to_string())?;
+            println!("  {} over {}: {}; on {} the field is {} and the value function gives {}", e, dt, img, d, expected, y);
+            Ok(img.contains(&Value::integer(expected)) || img.contains(&Value::some(Value::integer(expected))))
+        }
         // C11: interval-set operations on the real Intervals<i64> versus plain point sets over 0..=9
         "c11_intervals_case" | "c11_intervals_search" => {
             use qrlew::data_type::intervals::Intervals;
